@@ -4,7 +4,7 @@ import gens
 PLAN_ENTRY = {'stages': [
     {'name': 'raycast',
      'mc': [{'module': 'MC_C06', 'cfg': {'quick': 'MC_C06_quick.cfg', 'thorough': 'MC_C06_thorough.cfg'}, 'workers': 4}],
-     'gens': ['gen_c06_random', 'gen_c06_vertex_lines', 'gen_c06_corner_clips'],
+     'gens': ['gen_c06_random', 'gen_c06_vertex_lines', 'gen_c06_corner_clips', 'gen_c06_shallow'],
      'trace': 'Trace_RayCast'}],
     'assumptions': [
         'TLC evaluates the per-edge line/segment solution of RayCast.tla correctly (exact integer cross products)',
@@ -79,4 +79,24 @@ def gen_c06_corner_clips(rnd, tier):
                    ([-2, 3, 0], [1, -1, 0]), ([3, 3, 0], [1, 0, 0])):
         for sc in (0, -3, 5):
             out.append({'m': 'ray', 'op': 'cast', 'pts': sq, 'sc': sc, 'ctol16': 24, 'o': o, 'dirs': [d, [-d[0], -d[1], 0]]})
+    return out
+
+
+def gen_c06_shallow(rnd, tier):
+    """a closed rectangle 2^21 x 4 and lines with slopes of 2^-20 .. 2^-18 against its long edges (angles of 1e-6 .. 4e-6 rad):
+    every crossing of a long edge is a shallow one; origins are chosen so that no vertex lies on a line"""
+    W = 2 ** 21
+    rect = [[0, 0, 0], [W, 0, 0], [W, 4, 0], [0, 4, 0], [0, 0, 0]]
+    out = []
+    for _ in range(6 if tier == 'quick' else 60):
+        o = [rnd.choice((-8, -3, 5, 2 ** 20 + 7, W + 9)), rnd.choice((1, 2, 3, -1, 5)), 0]
+        dirs = []
+        for _k in range(4):
+            dx = rnd.choice((2 ** 20, 2 ** 19, 2 ** 18, 3 * 2 ** 19)) * rnd.choice((1, -1))
+            dy = rnd.choice((1, -1))
+            # no vertex on the line: cross((v - o), d) != 0 for the four corners
+            if all((vx - o[0]) * dy - (vy - o[1]) * dx != 0 for vx, vy, _z in rect[:4]):
+                dirs.append([dx, dy, 0])
+        if dirs:
+            out.append({'m': 'ray', 'op': 'shallow', 'pts': rect, 'o': o, 'dirs': dirs, 'qt': 4})
     return out
